@@ -7,13 +7,15 @@
     extra:[names]             definitions that appeared although the input never had them,
     outchunks:[k]             the filtered text cut into the input's definition texts (indices),
     residue                   non-blank bytes of the filtered text that belong to no definition,
-    clean                     sourcing printed nothing, no error, status 0}                    *)
+    clean                     sourcing printed nothing, no error, status 0;
+    raised                    main_run raised an exception}                    *)
 EXTENDS FilterEnv, TraceLib
 VARIABLE l
 Cfg(e) == [vnames |-> AsSet(e.vnames), fnames |-> AsSet(e.fnames), vwhite |-> e.vwhite, fwhite |-> e.fwhite]
 Judge(e) ==
     IF e.ev # "filter" THEN {"UnknownEvent"}
     ELSE IF ~Specified(Cfg(e)) THEN {"OutsideDomain"}
+    ELSE IF e.raised THEN {"FilterRuns"}
     ELSE AfterEnvClauses(e.defs, Cfg(e), AsSet(e.after))
          \cup (IF e.extra # <<>> THEN {"ExtraDefinition"} ELSE {})
          \cup (IF e.residue THEN {"NoStrayBytes"} ELSE {})
